@@ -1,7 +1,7 @@
 // Command rpcscen runs the rpc call-history scenario (property C04: every RPC call gets its own
 // handler run, result and status) against the real rpc package.
 //
-//	rpcscen c04 <seed> <quick|thorough> [only=<run>] [verbose]
+//	rpcscen <c04|c04free> <seed> <quick|thorough> [only=<run>] [verbose]
 //
 // Every run starts an rpc server on 127.0.0.1:0 whose handler takes its behaviour from the request
 // payload, and an rpc client with 1..4 connections; G goroutines issue N concurrent calls of mixed
@@ -10,6 +10,13 @@
 // specification of the call (see check.go). Run modes: plain, seeded yields inside mpx, connection
 // kills (client side, through a TCP proxy, server stop, client close) and an "evil" mode in which a
 // raw mpx server answers with malformed replies.
+//
+// Scenario c04free is c04 plus callers that free a channel while another goroutine of the caller
+// is blocked in Receive on it (the rpc channel is reference counted for exactly that), preceded by
+// a deterministic probe (run 0, see stale.go) of what that can do to OTHER calls: the channel that
+// ReceiveWait hands out belongs to a pooled queue and is reused by the next channel, so a waiter of
+// the freed channel takes the wake-up of a live call, which then sleeps with its message pending.
+// Scenario c04 stays inside the interleavings the property quantifies over (no such callers).
 //
 // One line per run is printed to stdout: `c04 run=<i> seed=<derived> key=value ...`; a run that
 // demonstrates a violation of the property on the library ends with ` VIOL <reason>` (repeated for
@@ -39,6 +46,7 @@ import (
 const masterSalt = 0xC04C04C04C04C04
 
 type scenario struct {
+	name     string
 	thorough bool
 	only     int
 	verbose  bool
@@ -51,6 +59,10 @@ type scenario struct {
 var (
 	sabotage  = os.Getenv("RPCSCEN_SABOTAGE")
 	strictEnd = os.Getenv("RPCSCEN_STRICT_END") == "1"
+
+	// freeRace enables the callers that free their channel while a receive is blocked on it
+	// (scenario c04free).
+	freeRace = false
 )
 
 func fail(format string, a ...any) {
@@ -59,7 +71,7 @@ func fail(format string, a ...any) {
 }
 
 func usage() {
-	fail("usage: rpcscen c04 <seed> <quick|thorough> [only=<run>] [verbose]")
+	fail("usage: rpcscen <c04|c04free> <seed> <quick|thorough> [only=<run>] [verbose]")
 }
 
 // emit prints one run line.
@@ -71,14 +83,21 @@ func (s *scenario) emit(line string, viol []string) {
 			line += " VIOL " + nospace(v)
 		}
 	}
-	fmt.Println("c04 " + line)
+	fmt.Println(s.name + " " + line)
 }
 
-// reserve is the time a run may need beyond the budget check (timeouts, shutdown).
-const reserve = 12 * time.Second
-
+// exhausted reports whether no further run may start: the budget leaves room for a run in which
+// every bounded wait expires (call timeout, settling, shutdown).
 func (s *scenario) exhausted() bool {
-	return time.Since(s.start)+reserve > s.budget
+	return time.Since(s.start) > s.budget
+}
+
+// timeouts bounds one call: see watchCall.
+func (s *scenario) timeouts() timeouts {
+	if s.thorough {
+		return timeouts{soft: 5 * time.Second, quiet: 2 * time.Second, hard: 30 * time.Second}
+	}
+	return timeouts{soft: 3 * time.Second, quiet: 1500 * time.Millisecond, hard: 12 * time.Second}
 }
 
 func dedup(in []string) []string {
@@ -119,20 +138,21 @@ func nospace(s string) string {
 }
 
 func main() {
-	if len(os.Args) < 4 || os.Args[1] != "c04" {
+	if len(os.Args) < 4 || (os.Args[1] != "c04" && os.Args[1] != "c04free") {
 		usage()
 	}
+	freeRace = os.Args[1] == "c04free"
 	seed, err := strconv.ParseUint(os.Args[2], 10, 64)
 	if err != nil {
 		usage()
 	}
-	s := &scenario{only: -1, start: time.Now()}
+	s := &scenario{name: os.Args[1], only: -1, start: time.Now()}
 	switch os.Args[3] {
 	case "quick":
-		s.budget = 34 * time.Second
+		s.budget = 18 * time.Second
 	case "thorough":
 		s.thorough = true
-		s.budget = 280 * time.Second
+		s.budget = 250 * time.Second
 	default:
 		usage()
 	}
@@ -152,9 +172,9 @@ func main() {
 	}
 
 	master := hx.NewRand(hx.NewRand(seed).U64() ^ masterSalt)
-	maxRuns := 60
+	maxRuns := 400
 	if s.thorough {
-		maxRuns = 600
+		maxRuns = 4000
 	}
 	for i := 0; i < maxRuns; i++ {
 		derived := master.U64()
@@ -164,14 +184,20 @@ func main() {
 		if s.exhausted() {
 			break
 		}
-		line, viol, detail := runOne(s, i, derived)
+		var line string
+		var viol, detail []string
+		if freeRace && i == 0 {
+			line, viol, detail = runStaleProbe(s)
+		} else {
+			line, viol, detail = runOne(s, i, derived)
+		}
 		s.emit(fmt.Sprintf("run=%d seed=%d %s", i, derived, line), viol)
 		if s.verbose {
 			for _, d := range detail {
-				fmt.Println("c04 detail run=" + strconv.Itoa(i) + " " + d)
+				fmt.Println(s.name + " detail run=" + strconv.Itoa(i) + " " + d)
 			}
 		}
 	}
-	fmt.Printf("c04 summary runs=%d viol=%d\n", s.runs, s.viols)
+	fmt.Printf("%s summary runs=%d viol=%d\n", s.name, s.runs, s.viols)
 	os.Exit(0)
 }
